@@ -290,6 +290,167 @@ impl Sub for Histories {
     }
 }
 
+// ---------------------------------------------------------------------------------------------
+// Long histories: tens of thousands of tokenizations between two sentences on one worker
+
+#[derive(Clone, Debug, Serialize, Deserialize, PartialEq, Eq, Hash)]
+pub struct LongHistCase {
+    pub base: TokCase,
+    /// sentences (indices into the pool) tokenized before the gap, the last one matters most
+    pub before: Vec<usize>,
+    /// number of filler steps between `before` and `after`
+    pub gap: u32,
+    /// 0: reset(one-character sentence) + tokenize; 1: every other step is a second tokenize() of the same sentence;
+    /// 2: every seventh step resets to the empty sentence; 3: fillers alternate between two one-character sentences
+    pub filler_mode: u8,
+    pub after: Vec<usize>,
+}
+
+pub struct LongHistory;
+
+fn long_hist_case() -> BoxedStrategy<LongHistCase> {
+    let p = TokCaseParams {
+        dict: DictParams { max_rows: 16, ..DictParams::default() },
+        n_sentences: 6,
+        max_chunks: 6,
+        max_chars: 20,
+        with_user: false,
+        with_mapping: false,
+        space_only_if_exclusive: false,
+    };
+    (
+        tok_case(p),
+        vec(any::<u16>(), 1..=3),
+        prop_oneof![
+            6 => (65_532u32..=65_538),
+            2 => (131_068u32..=131_074),
+            1 => (252u32..=258),
+            2 => (1u32..=3000),
+        ],
+        0u8..4,
+        vec(any::<u16>(), 1..=3),
+    )
+        .prop_map(|(mut base, b, gap, filler_mode, a)| {
+            base.opts.truncate(1);
+            let n = base.sentences.len();
+            LongHistCase { before: b.iter().map(|&x| pick(x, n)).collect(), gap, filler_mode, after: a.iter().map(|&x| pick(x, n)).collect(), base }
+        })
+        .boxed()
+}
+
+impl Sub for LongHistory {
+    type Case = LongHistCase;
+    fn name(&self) -> &'static str {
+        "long_history"
+    }
+    fn max_shrink_iters(&self) -> u32 {
+        200
+    }
+    fn strategy(&self, _tier: Tier) -> BoxedStrategy<LongHistCase> {
+        long_hist_case()
+    }
+    fn rule(&self) -> String {
+        "one reused worker: 1-3 pool sentences, then a gap of g filler steps, then 1-3 pool sentences; g ∈ 65532..65538 (6/11), 131068..131074, 252..258, 1..3000; fillers are one-character sentences \
+         (reset + tokenize), optionally interleaved with repeated tokenize() calls, resets to the empty sentence, or alternating between two sentences; model: every tokenize (fillers included) == tokens of a fresh worker; \
+         non-trivial = g ≥ 65535 and the sentences around the gap are longer than the fillers; distinct = hash(case)".into()
+    }
+    fn check(&self, case: &LongHistCase, ctx: &mut Ctx) -> Result<(), String> {
+        let b = &case.base;
+        let files = b.spec.render();
+        let o: TokOpts = b.opts.first().cloned().unwrap_or_default();
+        let dict = build_case_dict(&files, b.user.as_deref(), None, false)?;
+        let tokenizer = crate::refmodel::make_tokenizer_h(dict, o.ignore_space, o.max_grouping_len, o.history)?;
+        // fillers: the first characters of the pool sentences (at least "a")
+        let mut fillers: Vec<String> = b.sentences.iter().filter_map(|s| s.chars().next()).map(|c| c.to_string()).collect();
+        fillers.dedup();
+        if fillers.is_empty() {
+            fillers.push("a".into());
+        }
+        fillers.truncate(2);
+        let expect: Vec<Vec<Tok>> = guard(|| b.sentences.iter().map(|s| tokenize_fresh(&tokenizer, s)).collect()).map_err(|p| format!("fresh tokenization: {p}"))?;
+        let fexpect: Vec<Vec<Tok>> = guard(|| fillers.iter().map(|s| tokenize_fresh(&tokenizer, s)).collect()).map_err(|p| format!("fresh tokenization: {p}"))?;
+        let empty: Vec<Tok> = vec![];
+        let mut evals = 0u64;
+        let r = guard(|| -> Result<(), String> {
+            let mut w = tokenizer.new_worker();
+            let cmp = |w: &vibrato::tokenizer::worker::Worker, want: &Vec<Tok>, what: &str| -> Result<(), String> {
+                let got = tokens_of(w);
+                if &got != want {
+                    return Err(format!(
+                        "{what}: reused worker gives {:?}, a fresh worker gives {:?}",
+                        got.iter().map(|t| (t.surface.as_str(), t.lex_type, t.word_id, t.total_cost)).collect::<Vec<_>>(),
+                        want.iter().map(|t| (t.surface.as_str(), t.lex_type, t.word_id, t.total_cost)).collect::<Vec<_>>()
+                    ));
+                }
+                Ok(())
+            };
+            for &i in &case.before {
+                w.reset_sentence(&b.sentences[i]);
+                w.tokenize();
+                evals += 1;
+                cmp(&w, &expect[i], &format!("before the gap, sentence {:?}", b.sentences[i]))?;
+            }
+            let mut cur = 0usize;
+            let mut cur_empty = false;
+            for step in 0..case.gap {
+                match case.filler_mode {
+                    1 if step % 2 == 1 => {}
+                    2 if step % 7 == 3 => {
+                        w.reset_sentence("");
+                        cur_empty = true;
+                    }
+                    3 => {
+                        cur = (step as usize) % fillers.len();
+                        w.reset_sentence(&fillers[cur]);
+                        cur_empty = false;
+                    }
+                    _ => {
+                        cur = 0;
+                        w.reset_sentence(&fillers[0]);
+                        cur_empty = false;
+                    }
+                }
+                w.tokenize();
+                evals += 1;
+                cmp(&w, if cur_empty { &empty } else { &fexpect[cur] }, &format!("filler step {step} of {}", case.gap))?;
+            }
+            for &i in &case.after {
+                w.reset_sentence(&b.sentences[i]);
+                w.tokenize();
+                evals += 1;
+                cmp(&w, &expect[i], &format!("after a gap of {} filler steps (mode {}), sentence {:?}", case.gap, case.filler_mode, b.sentences[i]))?;
+            }
+            Ok(())
+        });
+        for _ in 0..evals.min(200_000) {
+            ctx.eval();
+        }
+        match r {
+            Ok(x) => x?,
+            Err(p) => return Err(format!("long history: {p}")),
+        }
+        let long_around = case.before.iter().chain(&case.after).any(|&i| b.sentences[i].chars().count() >= 3);
+        ctx.label(match case.gap {
+            0..=3000 => "gap_le_3000",
+            3001..=70_000 => "gap_around_65536",
+            _ => "gap_around_131072",
+        });
+        ctx.label_if(case.gap == 65_535, "gap_exactly_65535");
+        ctx.label_if(case.gap == 65_536, "gap_exactly_65536");
+        ctx.label(match case.filler_mode {
+            0 => "fillers_plain",
+            1 => "fillers_with_repeated_tokenize",
+            2 => "fillers_with_empty_sentences",
+            _ => "fillers_alternating",
+        });
+        if case.gap >= 65_535 && long_around {
+            ctx.nontrivial(&(&files, &case.before, case.gap, case.filler_mode, &case.after));
+        }
+        ctx.sample(|| serde_json::json!({"sentences": b.sentences, "before": case.before, "gap": case.gap, "filler_mode": case.filler_mode, "after": case.after, "fillers": fillers, "opts": o}));
+        Ok(())
+    }
+}
+
 pub fn run(opts: &Opts) -> Report {
     let mut rep = Report::new("C04", "exploration");
     rep.assumptions = vec![
@@ -304,6 +465,10 @@ pub fn run(opts: &Opts) -> Report {
     if !only_concurrent {
         crate::props::committed_replays(&a, opts, &mut rep);
         run_sub(&a, opts, opts.tier.pick(8000, 200_000), &mut rep);
+    }
+    if !only_concurrent {
+        crate::props::committed_replays(&LongHistory, opts, &mut rep);
+        run_sub(&LongHistory, opts, opts.tier.pick(640, 12_000), &mut rep);
     }
     for t in [4usize, 16] {
         let c = Histories { threads: t };
@@ -335,4 +500,5 @@ pub fn replay(path: &std::path::Path) -> Option<i32> {
     crate::props::try_strict(&Histories { threads: 1 }, "C04", path)
         .or_else(|| crate::props::try_strict(&Histories { threads: 4 }, "C04", path))
         .or_else(|| crate::props::try_strict(&Histories { threads: 16 }, "C04", path))
+        .or_else(|| crate::props::try_strict(&LongHistory, "C04", path))
 }
